@@ -4,6 +4,7 @@ import (
 	"github.com/f1bonacc1/process-compose/src/command"
 	"github.com/f1bonacc1/process-compose/src/pclog"
 	"github.com/f1bonacc1/process-compose/src/types"
+	"sync"
 )
 
 type ProcOpts func(proc *Process)
@@ -35,6 +36,12 @@ func withProcConf(procConf *types.ProcessConfig) ProcOpts {
 func withProcState(procState *types.ProcessState) ProcOpts {
 	return func(proc *Process) {
 		proc.procState = procState
+	}
+}
+
+func withStateMutex(stateMtx *sync.Mutex) ProcOpts {
+	return func(proc *Process) {
+		proc.stateMtx = stateMtx
 	}
 }
 
